@@ -14,11 +14,12 @@ import (
 //
 // Part A (c09_grid_test.go): TTL x hop-count boundary grid on the eight
 // receivers over a vt pipe, plus the OptionTTL value contract.
-// Part B (c09_chain_test.go, c09_loop_test.go): real mangos.Device chains with
-// concurrent clients, and forwarding loops that must die out.
+// Part B (c09_chain_test.go, c09_loop_test.go, c09_held_test.go): real
+// mangos.Device chains with concurrent clients, forwarding loops that must die
+// out, and chains whose cooked server holds several requests at once.
 
 type c09Spec struct {
-	Kind string `json:"kind"` // grid | opt | chain | loop
+	Kind string `json:"kind"` // grid | opt | chain | loop | slow | held
 
 	// grid / opt
 	Recv string `json:"recv,omitempty"` // rep xrep respondent xrespondent xpair1 pair1 xstar star
@@ -33,6 +34,10 @@ type c09Spec struct {
 	Tr      string `json:"tr,omitempty"`      // inproc | tcp | mix
 	Rounds  int    `json:"rounds,omitempty"`
 	Procs   int    `json:"procs,omitempty"`
+
+	// held (chain whose cooked server works on several requests at once)
+	Ctx    int `json:"ctx,omitempty"`    // contexts (askers) per client socket
+	SrvCtx int `json:"srvctx,omitempty"` // contexts of the server socket
 
 	// loop
 	TTL2 int `json:"ttl2,omitempty"` // TTL of the second receiver in the cycle
@@ -82,6 +87,7 @@ func TestC09(t *testing.T) {
 	// ---- Part B: chains and loops ----
 	cases = append(cases, c09ChainCases(r, rnd)...)
 	cases = append(cases, c09LoopCases(r, rnd)...)
+	cases = append(cases, c09HeldCases(r, rnd)...)
 
 	for i := 0; i < r.Pick(3, 30); i++ {
 		cases = append(cases, mon.CaseSpec{Name: "slow-receiver", Spec: c09Spec{Kind: "slow", TTL: i % 3}})
@@ -106,6 +112,8 @@ func TestC09(t *testing.T) {
 			c09Loop(c, sp)
 		case "slow":
 			c09Slow(c, sp)
+		case "held":
+			c09Held(c, sp)
 		default:
 			panic(fmt.Sprintf("c09: kind %q", sp.Kind))
 		}
